@@ -709,20 +709,20 @@ class Rectangle(Shape):
         bool
             True if `point` is inside the rectangle, False otherwise.
         """
-        min_x = min(self._lower_coord.real, self._upper_coord.real)
-        max_x = max(self._lower_coord.real, self._upper_coord.real)
-        min_y = min(self._lower_coord.imag, self._upper_coord.imag)
-        max_y = max(self._lower_coord.imag, self._upper_coord.imag)
+        # The comparison is done in the rectangle's own frame (the frame of
+        # `_get_vertex_positions`): the point is taken relative to the
+        # center and the rotation of the rectangle is undone.
+        rel_point = Shape.calc_rotated_pos(point - self.pos, -self.rotation)
+        lower = self._lower_coord - self.pos
+        upper = self._upper_coord - self.pos
 
-        point_x = point.real
-        point_y = point.imag
-        if point_x < min_x:
+        if rel_point.real < lower.real:
             return False
-        if point_x > max_x:
+        if rel_point.real > upper.real:
             return False
-        if point_y < min_y:
+        if rel_point.imag < lower.imag:
             return False
-        if point_y > max_y:
+        if rel_point.imag > upper.imag:
             return False
         return True
 
